@@ -22,7 +22,8 @@ import CalVerif.Model.XlsxFormula
              (`Formula.resolveExtern`: `sheets[itab_first]` for every XTI entry, the workbook reader's placeholders otherwise).
     result = `ok:<hex utf-8>` | `err:<hex of the Debug text of the error>` | `panic` | `fuel`
     PtgNum is printed as `<num:16 hex digits of the bits>` (the harness substitutes Rust's `Display`).
-    expr   = prefix notation, space separated (see `parseExpr`). -/
+    expr   = prefix notation, space separated (see `parseExpr`); `AT <etpg> <w> e` / `AC <o1,o2,…> e` = `e` followed by an
+             inert PtgAttr token (PtgAttrIf/Goto/Semi…, PtgAttrChoose). -/
 
 open Ptg Formula
 
@@ -128,6 +129,12 @@ partial def parseExpr : List String → Option (Expr × List String)
   | "B" :: b :: rest => do pure (.bool (← bool? b), rest)
   | "E" :: c :: rest => do pure (.err (← c.toNat?), rest)
   | "M" :: rest => some (.missing, rest)
+  | "AT" :: e :: w :: rest => do
+    let (x, rest) ← parseExpr rest
+    pure (.inert (.attrSkip (← e.toNat?) (← w.toNat?)) x, rest)
+  | "AC" :: offs :: rest => do
+    let (x, rest) ← parseExpr rest
+    pure (.inert (.attrChoose (← (offs.splitOn ",").mapM String.toNat?)) x, rest)
   | "U+" :: rest => do let (e, rest) ← parseExpr rest; pure (.uplus e, rest)
   | "U-" :: rest => do let (e, rest) ← parseExpr rest; pure (.uminus e, rest)
   | "PCT" :: rest => do let (e, rest) ← parseExpr rest; pure (.percent e, rest)
@@ -180,6 +187,7 @@ def parseTok (s : String) : Option Tok :=
   | ["paren"] => some .paren
   | ["attrSum"] => some .attrSum
   | ["attrSkip", e, w] => do pure (.attrSkip (← nat? e) (← nat? w))
+  | "attrChoose" :: offs => do pure (.attrChoose (← offs.mapM nat?))
   | ["func", c, f] => do pure (.func (← nat? c) (← nat? f))
   | ["funcVar", c, n, f] => do pure (.funcVar (← nat? c) (← nat? n) (← nat? f))
   | _ => none
